@@ -49,9 +49,9 @@ pub type Sequencer = u64;
 /// Maintains state for the ORL.
 #[derive(Clone, Debug, Eq, Hash, PartialEq)]
 pub struct StateWrapper<Msg, State> {
-    // send side
-    next_send_seq: Sequencer,
-    msgs_pending_ack: HashableHashMap<Sequencer, (Id, Msg)>,
+    // send side (sequencers are per destination so that a receiver can detect gaps)
+    next_send_seqs: HashableHashMap<Id, Sequencer>,
+    msgs_pending_ack: HashableHashMap<(Id, Sequencer), Msg>,
 
     // receive (ack'ing) side
     last_delivered_seqs: HashableHashMap<Id, Sequencer>,
@@ -97,7 +97,7 @@ where
 
         let mut wrapped_out = Out::new();
         let mut state = StateWrapper {
-            next_send_seq: 1,
+            next_send_seqs: Default::default(),
             msgs_pending_ack: Default::default(),
             last_delivered_seqs: Default::default(),
             wrapped_state: self.wrapped_actor.on_start(id, &mut wrapped_out),
@@ -116,13 +116,20 @@ where
     ) {
         match msg {
             MsgWrapper::Deliver(seq, wrapped_msg) => {
-                // Always ack the message to prevent re-sends, and early exit if already delivered.
-                o.send(src, MsgWrapper::Ack(seq));
-                if seq <= *state.last_delivered_seqs.get(&src).unwrap_or(&0) {
+                // Ack what was already delivered to prevent re-sends, and early exit. A message
+                // that overtook its predecessor is neither ack'd nor delivered: it will be resent
+                // and delivered once the gap has been filled.
+                let last_delivered_seq = *state.last_delivered_seqs.get(&src).unwrap_or(&0);
+                if seq <= last_delivered_seq {
+                    o.send(src, MsgWrapper::Ack(seq));
                     return;
                 }
+                if seq != last_delivered_seq + 1 {
+                    return;
+                }
+                o.send(src, MsgWrapper::Ack(seq));
 
-                // Process the message, and early exit if ignored.
+                // Process the message, and only track the sequencer if ignored.
                 let mut wrapped_state = Cow::Borrowed(&state.wrapped_state);
                 let mut wrapped_out = Out::new();
                 self.wrapped_actor.on_msg(
@@ -133,6 +140,7 @@ where
                     &mut wrapped_out,
                 );
                 if is_no_op(&wrapped_state, &wrapped_out) {
+                    state.to_mut().last_delivered_seqs.insert(src, seq);
                     return;
                 }
 
@@ -141,7 +149,7 @@ where
                     // Avoid unnecessarily cloning wrapped_state by not calling to_mut() in this
                     // case.
                     *state = Cow::Owned(StateWrapper {
-                        next_send_seq: state.next_send_seq,
+                        next_send_seqs: state.next_send_seqs.clone(),
                         msgs_pending_ack: state.msgs_pending_ack.clone(),
                         last_delivered_seqs: state.last_delivered_seqs.clone(),
                         wrapped_state,
@@ -151,7 +159,7 @@ where
                 process_output(state.to_mut(), wrapped_out, o);
             }
             MsgWrapper::Ack(seq) => {
-                state.to_mut().msgs_pending_ack.remove(&seq);
+                state.to_mut().msgs_pending_ack.remove(&(src, seq));
             }
         }
     }
@@ -166,7 +174,7 @@ where
         match timer {
             TimerWrapper::Network => {
                 o.set_timer(TimerWrapper::Network, self.resend_interval.clone());
-                for (seq, (dst, msg)) in &state.msgs_pending_ack {
+                for ((dst, seq), msg) in &state.msgs_pending_ack {
                     o.send(*dst, MsgWrapper::Deliver(*seq, msg.clone()));
                 }
             }
@@ -204,14 +212,10 @@ fn process_output<A: Actor>(
                 todo!("SetTimer is not supported at this time");
             }
             Command::Send(dst, inner_msg) => {
-                o.send(
-                    dst,
-                    MsgWrapper::Deliver(state.next_send_seq, inner_msg.clone()),
-                );
-                state
-                    .msgs_pending_ack
-                    .insert(state.next_send_seq, (dst, inner_msg));
-                state.next_send_seq += 1;
+                let seq = state.next_send_seqs.entry(dst).or_insert(1);
+                o.send(dst, MsgWrapper::Deliver(*seq, inner_msg.clone()));
+                state.msgs_pending_ack.insert((dst, *seq), inner_msg);
+                *seq += 1;
             }
             Command::ChooseRandom(_, _) => {
                 todo!("ChooseRandom is not supported at this time");
